@@ -332,7 +332,10 @@ impl okane_core::verif::World for Vfs {
         ));
         let (resolved, bytes) = r?;
         let fail_after = match self.faults.get(&resolved) {
-            Some(Fault::EioAfter(k)) => Some(*k),
+            Some(Fault::EioAfter(k)) => {
+                st.fault("eio-after");
+                Some(*k)
+            }
             _ => None,
         };
         Ok(Box::new(ChunkReader::new(
